@@ -348,6 +348,23 @@ def rule_cost(ctx, rules=('R01.a', 'R01.b', 'R01.c', 'R01.e')):
             bad.append('closure loop covers pairs %s, expected every unordered pair' % covs)
         if isinstance(c['potential'], str):
             bad.append('closure potential not set')
+        # what the matrix algebra consumes as C must be the Fourier transform of exactly these closure values
+        Cterm = W.attr_term(ip, pr.attrs['directCorr'].attrs['data'])
+        ok_c = False
+        if Cterm is not None and not P.is_pw(Cterm) and Cterm.is_monomial():
+            (mono, coef), = Cterm.num.items()
+            if coef == 1 and len(mono) == 1 and mono[0][1] == 1 and mono[0][0][0] == 'fn' and mono[0][0][1] == 'toF':
+                inner = N.nf_from_key(mono[0][0][2])
+                if inner.is_monomial():
+                    (m2, c2), = inner.num.items()
+                    if c2 == 1 and len(m2) == 1 and m2[0][1] == 1 and m2[0][0][0] == 'fn' and m2[0][0][1] == 'tab':
+                        body = N.nf_from_key(m2[0][0][2])
+                        atoms = [a_ for a_ in body.atoms()]
+                        ok_c = body.is_monomial() and len(atoms) == 1 and atoms[0][0] == 'fn' and atoms[0][1] == 'Cl' and \
+                            list(body.num.values())[0] == 1
+        if not ok_c:
+            bad.append('directCorr as used by the matrix algebra is %s, not the Fourier transform of the closure values of '
+                       'every pair' % (N.show(Cterm)[:160] if Cterm is not None else None))
     if bad:
         ctx.violation('R01.b', construct, 'closure-wiring', '; '.join(bad), m.loc())
     else:
@@ -455,15 +472,36 @@ def _series_diff(x, y, D):
     return None
 
 
-def run_solve(prog, preset=(), twice=False):
+def run_solve(prog, preset=(), twice=False, between=None):
     ip, r = build_prism(prog, preset)
     pr = r['PRISM']
     res = ip.call(ip.find_method(pr, 'solve'), [], {})
     r['result'] = res
     if twice:
+        if between == 'fourier':
+            # post-processing between the solves moved totalCorr to Fourier space (structure_factor, second_virial ...)
+            dom = pr.attrs['sys'].attrs['domain']
+            tc = pr.attrs['totalCorr']
+            if getattr(tc.attrs.get('space'), 'v', None) == ('Space', 'Real'):
+                ip.call(ip.find_method(dom, 'MatrixArray_to_fourier'), [tc], {})
         # re-solve from the object's own solution (guess = own x)
         r['result2'] = ip.call(ip.find_method(pr, 'solve'), [], {'guess': pr.attrs.get('x')})
     return ip, r
+
+
+def _solved_state(ip, pr):
+    """what a user can observe on a solved object: content term and space flag of the stored arrays"""
+    out = {}
+    cn = S.Canon(ip.atom_is_array, degree=6)
+    for nm in ('totalCorr', 'directCorr', 'omega', 'GammaIn', 'GammaOut'):
+        ma = pr.attrs.get(nm)
+        if not (isinstance(ma, Obj) and ma.isa('MatrixArray')):
+            out[nm] = ('missing',)
+            continue
+        t = W.attr_term(ip, ma.attrs.get('data'))
+        sp = getattr(ma.attrs.get('space'), 'v', None)
+        out[nm] = (N.show(cn.canon(t)) if t is not None and not P.is_pw(t) else repr(t), sp)
+    return out
 
 
 def rule_post_solve(ctx, rule='R01.f'):
@@ -504,13 +542,24 @@ def rule_post_solve(ctx, rule='R01.f'):
             bad.append('totalCorr is left in %r' % (getattr(sp, 'v', sp),))
     if not n:
         bad.append('no analysable path through solve')
-    # re-solving the same object must not trip over the space flags left by the first solve
+    # re-solving the same object (from its own solution; straight away or after post-processing moved totalCorr to Fourier
+    # space) must not trip over the space flags left behind, and must leave exactly the state a first solve leaves
+    first = [_solved_state(ip, r['PRISM']) for d, ip, r in ws if ip is not None]
     try:
-        ws2 = explore(lambda preset: run_solve(ctx.prog, preset, twice=True), keep_raised=True, limit=256)
-        for d, ip, r in ws2:
-            if ip is None:
-                bad.append('a second solve on the same object raises %s' % r)
-                break
+        for between in (None, 'fourier'):
+            ws2 = explore(lambda preset: run_solve(ctx.prog, preset, twice=True, between=between), keep_raised=True, limit=256)
+            for d, ip, r in ws2:
+                what = 'a second solve on the same object' + (' (after totalCorr was moved to Fourier space)' if between else '')
+                if ip is None:
+                    bad.append('%s raises %s' % (what, r))
+                    break
+                st = _solved_state(ip, r['PRISM'])
+                if first and st not in first:
+                    ref = first[0]
+                    diff = ['%s: %s flagged %s (after one solve: %s flagged %s)' % (k_, st[k_][0][:90], st[k_][-1], ref[k_][0][:90], ref[k_][-1])
+                            for k_ in st if st[k_] != ref[k_]]
+                    bad.append('%s leaves a different state than a first solve: %s' % (what, '; '.join(diff[:2])))
+                    break
     except Unsupported as e:
         ctx.undecided(rule, construct, 're-solve: %s' % e, m.loc())
     if bad:
